@@ -43,6 +43,10 @@ func init() {
 					// convergence needs a vSwitch reported exhausted to come back once its cache entry expires: the shared
 					// vSwitch pool's histories (C17's generator, model and monitors) run here as well
 					c17Run(c)
+					// … and a request repeated after an error that hid its effect must be recognised by the cloud as the same request (else it
+					// assigns twice: beyond the quota, or behind the record's back): the client-token discipline of the OpenAPI wrappers the
+					// controller's assign / create calls go through (C16's generator, model and monitors)
+					c16Run(c)
 				}
 			},
 			Exec2: func(c *Ctx, ops []string) ([]string, []string) {
@@ -51,6 +55,9 @@ func init() {
 				}
 				if len(ops) > 0 && strings.HasPrefix(ops[0], "vsw.") {
 					return ops, c17Exec(c, ops)
+				}
+				if len(ops) > 0 && strings.HasPrefix(ops[0], "tok.") {
+					return ops, c16Exec(c, ops)
 				}
 				if len(ops) > 0 && strings.HasPrefix(ops[0], "rt.") {
 					return ops, agExec(c, ops)
